@@ -27,6 +27,19 @@ CHECKS = {
          "bounded-exhaustive input enumeration vs reference recogniser (stateless explicit-state exploration)"),
 }
 
+CHECKS.update({
+ "C08": ("model_checking",
+         "All expression trees with <=2 binary operators over 8 leaves (numbers and amounts in two commodities, a negative literal, zeros) with unary minus on any leaf/subtree, printed with MINIMAL parentheses (so the real parser's precedence and left-associativity decide the value), in 6 contexts (Ledger::eval, posting amount, cost, lot price, balance assignment, balance assertion), plus three alternative spellings; thorough adds all 3-operator trees over 6 leaves with <=1 unary minus. Each is evaluated by the real code and compared with a reference tree evaluator over exact rationals; ill-typed operations named by the statement must be rejected.",
+         "Trusted: RefExpr (harness/src/checks/c08.rs::ev) and the minimal-parenthesis printer. number/amount, amount/amount, bare-number results of eval, zero bare numbers, multi-commodity sums with only zero extras, zero/negative rates are DON'T-CARE. Trees containing '/' compared with relative tolerance 1e-20.",
+         "DESIGN.md §5 C08",
+         "bounded-exhaustive enumeration of expression trees x contexts x spellings vs reference evaluator"),
+ "C09": ("model_checking",
+         "All sets of <=3 dated price facts (thorough: also all 4-fact sets over cost/db sources and all 3-fact sets spanning 4 commodities) from an alphabet of unordered pair x date x rate x source {cost, price-db} plus @@, {}, implied-exchange and reverse-direction facts, realised as real ledger transactions / a real price-DB file in ascending and reversed file order; for every set ALL (from,to) pairs x 5 query dates are converted by the real code (4.0 M conversions quick) and compared with a brute-force all-simple-paths reference returning the accept-set of rates.",
+         "Trusted: RefPrices (harness/src/checks/c09.rs::refprice). Staleness of a chain is accepted both as max and as sum of ages; results within 1e-20 relative (reciprocals are 28-digit decimals).",
+         "DESIGN.md §5 C09",
+         "explicit enumeration of price-fact histories (canonical key = fact multiset, checked by a reversed-file-order pass) x exhaustive queries vs brute-force reference"),
+})
+
 PENDING_REASON = "check not yet implemented in this revision of /verif (planned, see DESIGN.md §5); not claimed until it exists"
 
 def main():
